@@ -3,9 +3,12 @@ import os, sys, json, time, hashlib, shutil
 
 VERIF = os.path.dirname(os.path.dirname(os.path.abspath(__file__)))
 SPECS = os.path.join(VERIF, "specs")
-WORK = os.path.join(VERIF, ".work")
-EVID = os.path.join(VERIF, "evidence")
-REPLAYS = os.path.join(VERIF, "replays")
+# VERIF_WORK_SUFFIX: set by tools/run_seeds.py so that runs against a mutated tree do not touch the
+# evidence, replays and scratch files of the real runs
+_SUF = os.environ.get("VERIF_WORK_SUFFIX", "")
+WORK = os.path.join(VERIF, ".work" + (("/mut_" + _SUF) if _SUF else ""))
+EVID = os.path.join(VERIF, "evidence") if not _SUF else os.path.join(WORK, "evidence")
+REPLAYS = os.path.join(VERIF, "replays") if not _SUF else os.path.join(WORK, "replays")
 FPARSER_SRC = os.environ.get("FPARSER_SRC", "/repo/src")
 NCPU = int(os.environ.get("VERIF_JOBS", "16"))
 PY = "/venv/bin/python"
